@@ -24,6 +24,9 @@ def run(rep, idx, tier):
     rep.require("C11.5", 3)
     rep.require("C11.6", 5)
     rep.require("C11.7", 1)
+    rep.require("C11.9", 1)
+    from . import glue as _g9
+    _g9.reset_discipline(rep, "C11.9", idx, ["csr/reg:Register", "csr/reg:Bridge"])
     from .c19 import shared_state
     shared_state(rep, idx, rule="C11.7", classes=["Register", "Field", "FieldActionMap", "FieldActionArray", "FieldAction"])
     c = get_ctx(idx, "Register.elaborate")
